@@ -99,7 +99,7 @@ fn c12_year() {
     kani::cover!(y >= 0 && y < 1000 && p == 0);
 }
 
-// @ob tier=quick timeout=1800 mem=12
+// @ob tier=quick timeout=1800 mem=8
 // @desc %C with every padding modifier: floor(year / 100), two digits for 0..=99 and a plain (signed) integer otherwise -- e.g. year -99 prints -1 as documented (finding F5 on the original tree: u8 narrowing printed garbage)
 // @bounds all dates x {Zero, Space, None}
 // @funcs DelayedFormat::format_numeric (YearDiv100), write_century, write_two, write_n
@@ -121,7 +121,7 @@ fn c12_century() {
 
 macro_rules! two_digit_date_item {
     ($name:ident, $num:expr, $val:expr) => {
-        // @ob tier=quick timeout=1800 mem=12
+        // @ob tier=quick timeout=1800 mem=8
         // @desc a two-digit date item (%y for years >= 0, %m, %d/%e, %U, %W, %V) with every padding modifier renders the documented field of every date: the value comes from the independent reference calendar (week numbers: Sunday-/Monday-based count of week starts, ISO week of the Thursday)
         // @bounds all dates x {Zero, Space, None}
         // @funcs DelayedFormat::format_numeric, write_two, NaiveDate::weeks_from, IsoWeek
@@ -174,7 +174,7 @@ fn c12_small_items() {
     kani::cover!(wd == 6);
 }
 
-// @ob tier=quick timeout=1800 mem=12
+// @ob tier=quick timeout=1800 mem=8
 // @desc clock items with every padding modifier: %H, %I (12-hour clock: 12 at 0 and 12), %M, %S (60 for a leap second) for every time of day incl. leap representations; a date-only value cannot render clock items (error, nothing printed)
 // @bounds all times of day x {Zero, Space, None}
 // @funcs DelayedFormat::format_numeric (Hour, Hour12, Minute, Second), Timelike::hour12
@@ -201,7 +201,7 @@ fn c12_clock_items() {
 // One harness per offset item (a symbolic item multiplies the formatting paths past the quick cap).
 macro_rules! offset_item {
     ($name:ident, $fx:expr, $which:expr) => {
-        // @ob tier=quick timeout=900 mem=12
+        // @ob tier=quick timeout=900 mem=8
         // @desc one offset item of %z, %:z, %::z, %:::z for every offset incl. seconds: sign, then hours/minutes with the seconds rounded to the nearest minute (carrying into the hour) for %z and %:z, exact hours:minutes:seconds for %::z, truncated hours for %:::z; two digits each, colons as documented
         // @bounds all offsets in (-24h, 24h) at one-second resolution; date-time concrete (the offset writer only reads the offset)
         // @funcs DelayedFormat::format_fixed (TimezoneOffset*), OffsetFormat::format
@@ -253,7 +253,7 @@ offset_item!(c12_offset_colon, chrono::format::Fixed::TimezoneOffsetColon, 1);
 offset_item!(c12_offset_double_colon, chrono::format::Fixed::TimezoneOffsetDoubleColon, 2);
 offset_item!(c12_offset_triple_colon, chrono::format::Fixed::TimezoneOffsetTripleColon, 3);
 
-// @ob tier=quick timeout=900 mem=12
+// @ob tier=quick timeout=900 mem=8
 // @desc %Y for years 0..=9999 with every padding modifier: zero padding to four digits by default, `%-Y` without padding, `%_Y` space padded to width four, never a sign (quick instance of c12_year, which covers all years)
 // @bounds all dates with year 0..=9999 x {Zero, Space, None}
 // @funcs DelayedFormat::format_numeric (Year), write_year fast path, write_n
